@@ -675,9 +675,34 @@ fn produce_create_jws(signers: &[Signer], si: usize, faulty: bool) -> Option<Not
     3 => opts = opts.kid("second".to_owned()),
     _ => {}
   }
+  // custom header parameters; one time in twelve they (mis)use the name of a registered parameter, which the call may
+  // refuse - but if it answers with a token, that token must still decode to what was signed
+  let mut shadowing = false;
   if ctx::choose(4) == 0 {
     let mut m = std::collections::BTreeMap::new();
     m.insert("simCustom".to_owned(), Value::from(ctx::choose(10) as u64));
+    if ctx::choose(3) == 0 {
+      shadowing = true;
+      ctx::stat("probe.custom_parameter_with_registered_name");
+      match ctx::choose(5) {
+        0 => {
+          m.insert("b64".to_owned(), Value::from(!b64_flag));
+          m.insert("crit".to_owned(), serde_json::json!(["b64"]));
+        }
+        1 => {
+          m.insert("kid".to_owned(), Value::from("did:sim:someone#else"));
+        }
+        2 => {
+          m.insert("typ".to_owned(), Value::from("other+jws"));
+        }
+        3 => {
+          m.insert("alg".to_owned(), Value::from("none"));
+        }
+        _ => {
+          m.insert("nonce".to_owned(), Value::from("another-nonce"));
+        }
+      }
+    }
     opts = opts.custom_header_parameters(m);
   }
   let raw = gen_payload(b64_flag, Ser::Compact, detached);
@@ -733,6 +758,9 @@ fn produce_create_jws(signers: &[Signer], si: usize, faulty: bool) -> Option<Not
             return None;
           }
         }
+      } else if shadowing {
+        ctx::stat("probe.custom_parameter_with_registered_name_refused");
+        return None;
       } else {
         ctx::violation(
           "C08",
@@ -750,7 +778,9 @@ fn produce_create_jws(signers: &[Signer], si: usize, faulty: bool) -> Option<Not
   let protected: Value = b64url_decode(&protected_b64).and_then(|b| serde_json::from_slice(&b).ok()).unwrap_or(Value::Null);
   // the emitted (and signed) protected header carries exactly what the options asked for
   let want_typ = opt_typ.unwrap_or("JWT");
-  if protected.get("typ").and_then(|t| t.as_str()) != Some(want_typ)
+  if shadowing {
+    // (whether such a token is consistent is judged when it is received)
+  } else if protected.get("typ").and_then(|t| t.as_str()) != Some(want_typ)
     || protected.get("cty").and_then(|t| t.as_str()) != opt_cty
     || protected.get("nonce").and_then(|t| t.as_str()) != nonce.as_deref()
   {
